@@ -45,4 +45,10 @@ def retentionCheck (keep : Bool) (finished : List String) (s : St) : Option (Str
       | some p => some ("rows-deleted-despite-keep", p)
       | none => none
 
+/-- with `keep_processes` the rows of a process that has delivered its terminal event are in terminal states: the first process among
+`settled` (the processes whose ending lies before the operation that was just observed) that still has a task row in another state.
+`rows` = (pid of the row, is its state terminal) -/
+def keptRowsCheck (settled : List String) (rows : List (String × Bool)) : Option String :=
+  (rows.find? fun r => settled.contains r.1 && !r.2).map (·.1)
+
 end Acts.Ret
